@@ -246,7 +246,7 @@ pub fn explore(run: &Run) -> (Stats, Vec<(u64, u64)>) {
     // around 255 / 256, classes of a hundred intervals, long haystacks)
     {
         let light = LIGHT.load(std::sync::atomic::Ordering::Relaxed);
-        let mut fam = if light { Vec::new() } else { crate::sweep::scale_family(thorough) };
+        let mut fam = if light { crate::sweep::scale_family_fixed() } else { crate::sweep::scale_family(thorough) };
         fam.extend(crate::sweep::alignment_family());
         let a = fam
             .par_iter()
